@@ -39,6 +39,7 @@ def canary(fn):
         code = 0
         try:
             os.close(rfd)
+            __import__('signal').alarm(120)      # a hang of the code under test ends the copy (reported as signal 14)
             LoggedRecipe.fd = wfd
             devnull = os.open(os.devnull, os.O_WRONLY)
             os.dup2(devnull, 1)
